@@ -570,7 +570,7 @@ func (x *c16Lab) attempt(cse c16Case, noCleanup bool) (succeeded bool) {
 		r.Count("attempts_funded_with_unconfirmed_parent", 1)
 	}
 	if out.Panic != nil {
-		viol("client-panic", fmt.Sprintf("client call panicked: %v", out.Panic), fmt.Sprint(out.Panic))
+		viol("client-panic", fmt.Sprintf("client call panicked: %v", out.Panic), map[string]any{"panic": fmt.Sprint(out.Panic), "stack": out.Stack})
 	}
 
 	var committed *rhpmitm.ContractEvent
